@@ -106,7 +106,7 @@ def api_stage(ev, prop, tier, seed):
             c["doc"] = None
             out.write(json.dumps(c) + "\n")
     trace = os.path.join(WORK, f"{prop}-api-{os.getpid()}.trace")
-    n_events, crashes = run_worker(cases, trace, per_case_timeout=60)
+    n_events, crashes = run_worker(cases, trace, per_case_timeout=60 if tier == 'thorough' else 25, max_crashes=6)
     log(f"[worker] {n_events} events, {len(crashes)} crashes/timeouts")
     with open(trace) as f:
         lines = f.readlines()
